@@ -319,6 +319,56 @@ func TestVerifC12(t *testing.T) {
 			<-chDone
 			fmt.Fprintf(w, "mtcp d32obs peer-closed %s gone=%d\n", strings.Join(res, ","), gone)
 		}
+		// (a') the same with a consumer that is busy: it looks at the report channel every 15 ms instead of being
+		// parked on it - the report of a failed Send must wait for it, not be dropped
+		for rep := 0; rep < 3; rep++ {
+			client := NewAnonymousMTCPClient(ln.Addr().String(), false)
+			if err, _ := client.Start(); err != nil {
+				continue
+			}
+			gone := 0
+			var mu sync.Mutex
+			chDone := make(chan struct{})
+			go func() {
+				defer close(chDone)
+				for {
+					time.Sleep(15 * time.Millisecond)
+					select {
+					case cs, ok := <-client.Channel():
+						if !ok {
+							return
+						}
+						if cs.MessageType == cla.PeerDisappeared {
+							mu.Lock()
+							gone++
+							mu.Unlock()
+						}
+					default:
+					}
+				}
+			}()
+			time.Sleep(100 * time.Millisecond)
+			var res []string
+			for i := 0; i < 3; i++ {
+				b, _ := c12Bundle(r, 10)
+				if err := client.Send(b); err != nil {
+					res = append(res, "err")
+				} else {
+					res = append(res, "ok")
+				}
+				time.Sleep(20 * time.Millisecond)
+			}
+			time.Sleep(60 * time.Millisecond)
+			_ = client.Close()
+			select {
+			case <-chDone:
+			case <-time.After(3 * time.Second):
+			}
+			mu.Lock()
+			g := gone
+			mu.Unlock()
+			fmt.Fprintf(w, "mtcp d32obs peer-closed-busy-consumer %s gone=%d\n", strings.Join(res, ","), g)
+		}
 		_ = ln.Close()
 	}
 	{
